@@ -76,7 +76,7 @@ CLAIMS = {
     },
     "C19": {
         "level": "other",
-        "text": "Error-discipline rules on every Result-producing call site in non-test code (def-use to `?`, tail return, adaptor chains or an explicit match whose Err arm cannot reach an Ok return), the reader's Ok(None) only under read==0 && empty buffer with the sibling EOF-inside-packet path returning Err, Ok exits of the command loop only from the reader's None arm or Quit, every reader result in the handshake turned into an error on None, identity conversion of shim errors, no shim callback reachable after an error-building block, and an inventory of unwrap/expect on connection-touching io results (two documented Drop panics are known findings).",
+        "text": "Error-discipline rules on every Result-producing call site in non-test code (def-use to `?`, tail return, adaptor chains or an explicit match whose Err arm cannot reach an Ok return), the reader's Ok(None) only under read==0 && empty buffer with the sibling EOF-inside-packet path returning Err, Ok exits of the command loop only from the reader's None arm or Quit, every reader result in the handshake turned into an error on None, identity conversion of shim errors, no shim callback reachable after an error-building block, an inventory of unwrap/expect on connection-touching io results (found and fixed: the two Drop impls panicked on a transport error), and the deferred-error channel that replaced them (Drop hands the finaliser's error to the connection on every error path, flush returns it before doing anything else).",
         "note": "Trusted: dependencies do not swallow errors; panics inside the shim are the shim's. Fault injection at run time is not performed: the rules are necessary conditions on all paths.",
         "technique": "def-use result-discipline analysis, path rules on enumerated CFG paths, reachability from error blocks",
     },
